@@ -79,7 +79,7 @@ impl CgrComputer {
         let buffer = reader
             .fill_buf()
             .map_err(|_| String::from("Invalid stream"))?;
-        let format = if buffer[0] == b'>' {
+        let format = if buffer.first() == Some(&b'>') {
             SeqFormat::Fasta
         } else {
             SeqFormat::Fastq
